@@ -12,19 +12,19 @@ import (
 
 // Opts switches classes of generated content on or off.
 type Opts struct {
-	MaxRecords   int  // typical upper bound (default 6)
-	AllowMany    bool // occasionally 13–60 records
-	Controls     bool // control characters (NUL, ESC, lone CR inside a line …) in summaries
-	InvalidUTF8  bool // invalid UTF-8 bytes in summaries
-	BigDurations bool // durations up to 10^9 hours
-	NoOpen       bool // never generate open ranges
-	SortedDates  int  // 0 = any order, 1 = ascending, 2 = strictly ascending (unique)
-	NearDay      int  // if != 0: dates cluster around this day number
-	NearSpan     int  // cluster radius in days (default 3)
+	MaxRecords     int  // typical upper bound (default 6)
+	AllowMany      bool // occasionally 13–60 records
+	Controls       bool // control characters (NUL, ESC, lone CR inside a line …) in summaries
+	InvalidUTF8    bool // invalid UTF-8 bytes in summaries
+	BigDurations   bool // durations up to 10^9 hours
+	NoOpen         bool // never generate open ranges
+	SortedDates    int  // 0 = any order, 1 = ascending, 2 = strictly ascending (unique)
+	NearDay        int  // if != 0: dates cluster around this day number
+	NearSpan       int  // cluster radius in days (default 3)
 	KeepTrailingCR bool // do not strip lone CRs at the end of summary lines
-	PlainSummary bool // ASCII-only summaries without tags
-	NoSummary    bool
-	MaxEntries   int // default 5
+	PlainSummary   bool // ASCII-only summaries without tags
+	NoSummary      bool
+	MaxEntries     int // default 5
 }
 
 func (o Opts) maxRecords() int {
@@ -539,4 +539,52 @@ func StripTrailingCR(d *model.Doc) int {
 		}
 	}
 	return n
+}
+
+// ---------- hostile texts ----------
+
+var hostileTokens = []string{"\r", "\n", "\r\n", " ", "\t", "\xff", "\xe6\x97", "日", "é", "?", "-", ":", "2020-01-01", "\n\n", "    ", "  ", "1h", "-30m",
+	"(8h!)", "(", ")", "!", "<", ">", "am", "#tag", "=\"", "\x00", " ", "　", " ", "153722867280912930h", "9223372036854775807m", "24:00", "8:00", "0:00", " - ", "\n\t", "\n \n", "\r\r\n", "\n\r"}
+
+// HugeNumberTokens are duration literals beyond the representable range (known finding F2).
+var HugeNumberTokens = []string{"99999999999999999999h", "9223372036854775808m", "153722867280912931h", "153722867280912930h60m", "-9223372036854775808m"}
+
+// Mutate applies a few byte-level mutations (insert token, delete, duplicate, truncate).
+func Mutate(t *rapid.T, text string, label string) string {
+	n := rapid.IntRange(1, 4).Draw(t, label+"N")
+	for i := 0; i < n; i++ {
+		pos := 0
+		if len(text) > 0 {
+			pos = rapid.IntRange(0, len(text)).Draw(t, label+"Pos")
+		}
+		switch rapid.IntRange(0, 5).Draw(t, label+"Kind") {
+		case 0, 1, 2:
+			text = text[:pos] + rapid.SampledFrom(hostileTokens).Draw(t, label+"Tok") + text[pos:]
+		case 3:
+			end := pos + rapid.IntRange(1, 12).Draw(t, label+"DelLen")
+			if end > len(text) {
+				end = len(text)
+			}
+			text = text[:pos] + text[end:]
+		case 4:
+			end := pos + rapid.IntRange(1, 40).Draw(t, label+"DupLen")
+			if end > len(text) {
+				end = len(text)
+			}
+			text = text[:end] + text[pos:end] + text[end:]
+		case 5:
+			text = text[:pos]
+		}
+	}
+	return text
+}
+
+// Soup draws a short text made of hostile tokens only.
+func Soup(t *rapid.T, label string) string {
+	n := rapid.IntRange(0, 12).Draw(t, label+"N")
+	var sb strings.Builder
+	for i := 0; i < n; i++ {
+		sb.WriteString(rapid.SampledFrom(hostileTokens).Draw(t, label+"Tok"))
+	}
+	return sb.String()
 }
